@@ -104,6 +104,18 @@ class Event:
     def cond(self):
         return T.mk_and(self.pc)
 
+    @property
+    def owner(self):
+        """short name of the function this event belongs to for the rules: the innermost function on the call chain that
+        the rules know (baseline); events inside a later-extracted helper belong to the function it was extracted from"""
+        from .baseline import BASELINE_FUNCS
+        chain = [s for s, _ in self.stack] + ([self.func.short] if self.func is not None else [])
+        for name in reversed(chain):
+            base = name.split('#')[0]
+            if base in BASELINE_FUNCS or '<locals>' in name and name.split('.<locals>')[0] in BASELINE_FUNCS:
+                return name
+        return chain[-1] if chain else None
+
     def text(self):
         return stmt_text(self.node)
 
@@ -603,13 +615,17 @@ class Interp:
         ia = init.single_atom() if init is not None else None
         if ia is None or ia.kind != 'list' or ia.args or loop.orelse:
             return None
+        # every mention of the list in the body is the receiver of an `append(v)` statement (possibly one per branch); that
+        # every iteration appends exactly once is read off the value after the body: mut.append(<list on entry>, v)
         uses = [n for b in loop.body for n in ast.walk(b) if isinstance(n, ast.Name) and n.id == name]
-        tops = [st for st in loop.body if isinstance(st, ast.Expr) and isinstance(st.value, ast.Call)
+        apps = [st for b in loop.body for st in ast.walk(b) if isinstance(st, ast.Expr) and isinstance(st.value, ast.Call)
                 and isinstance(st.value.func, ast.Attribute) and st.value.func.attr == 'append'
                 and isinstance(st.value.func.value, ast.Name) and st.value.func.value.id == name
                 and len(st.value.args) == 1 and not st.value.keywords]
-        if len(uses) != 1 or len(tops) != 1:
+        if not uses or len(uses) != len(apps):
             return None
+        if any(isinstance(n, (ast.For, ast.While)) and any(a_ in ast.walk(n) for a_ in apps) for b in loop.body for n in ast.walk(b)):
+            return None       # an append inside a nested loop: more than one element per iteration
         if any(isinstance(n, (ast.Break, ast.Continue, ast.Return)) for b in loop.body for n in ast.walk(b)):
             return None
         lid = info['id']
